@@ -27,19 +27,34 @@ theorem divLocal_congr (g g' : GGrid ℝ) (sm : Bool) (q : Idx)
     (hs : g'.shape = g.shape) (hw : g'.w = g.w)
     (h : ∀ c ∈ cornersDown g.shape.nd, gradAt g' sm (addIdx q c) = gradAt g sm (addIdx q c)) :
     divLocal g' sm q = divLocal g sm q := by
-  sorry
+  exact Integ.L.divLocal_congr g g' sm q hs hw h
 
 /-- a point whose surrounding bins include `b` is one of the 2^nd points `update_div_neighbors(b)` refreshes -/
 theorem touched_points (s : Shape) (hs : ShapeOk s) (b q c : Idx) (hq : PointOk s q)
     (hc : c ∈ cornersDown s.nd) (hb : wrapEdge s.nx s.per (addIdx q c) = some b) :
     ∃ e ∈ cornersUp s.nd, q = wrapIdx s.pmfNx s.per (addIdx b e) := by
-  sorry
+  exact Integ.L.touched_aux s.nx s.per q c b hs.1 hs.2 hq hc hb
 
 /-- one sample keeps the divergence up to date -/
 theorem sample_keeps_inv (sm : Bool) (st : GGrid ℝ × DivF ℝ) (bf : Idx × List ℝ)
     (hs : ShapeOk st.1.shape) (hb : BinOk st.1.shape bf.1) (h : DivInv sm st) :
     DivInv sm (sample sm st bf) := by
-  sorry
+  have _ := hb -- not needed: the bookkeeping is right for any bin index
+  intro q hq
+  have hshape : (Integ.accForce st.1 bf.1 bf.2).shape = st.1.shape := rfl
+  show updateDivNeighbors (Integ.accForce st.1 bf.1 bf.2) sm st.2 bf.1 q =
+    divLocal (Integ.accForce st.1 bf.1 bf.2) sm q
+  rw [Integ.L.updateDivNeighbors_eq]
+  split_ifs with hex
+  · rfl
+  · have hq' : PointOk st.1.shape q := hq
+    rw [h q hq']
+    symm
+    apply divLocal_congr _ _ sm q hshape rfl
+    intro c hc
+    apply Integ.L.gradAt_accForce_of_ne
+    intro hwe
+    exact hex (touched_points st.1.shape hs bf.1 q c hq' hc hwe)
 
 /-- **incremental = batch**: after any sequence of samples (any bins, any multiplicity, any order) the incrementally
     maintained divergence equals `set_div` of the final gradients at every point of the PMF grid -/
@@ -47,7 +62,21 @@ theorem incremental_eq_batch (sm : Bool) (g : GGrid ℝ) (l : List (Idx × List 
     (hs : ShapeOk g.shape) (hb : ∀ bf ∈ l, BinOk g.shape bf.1) :
     let fin := samples sm (g, setDiv g sm) l
     ∀ q, PointOk g.shape q → fin.2 q = setDiv fin.1 sm q := by
-  sorry
+  have key : ∀ (l : List (Idx × List ℝ)) (st : GGrid ℝ × DivF ℝ), st.1.shape = g.shape →
+      (∀ bf ∈ l, BinOk g.shape bf.1) → DivInv sm st →
+      DivInv sm (samples sm st l) ∧ (samples sm st l).1.shape = g.shape := by
+    intro l
+    induction l with
+    | nil => intro st hsh _ hinv; exact ⟨hinv, hsh⟩
+    | cons bf l ih =>
+      intro st hsh hbl hinv
+      have h1 : DivInv sm (sample sm st bf) :=
+        sample_keeps_inv sm st bf (hsh ▸ hs) (hsh ▸ hbl bf (by simp)) hinv
+      have h2 : (sample sm st bf).1.shape = g.shape := hsh
+      exact ih (sample sm st bf) h2 (fun bf' hbf' => hbl bf' (List.mem_cons_of_mem _ hbf')) h1
+  intro fin q hq
+  obtain ⟨hinv, hsh⟩ := key l (g, setDiv g sm) rfl hb (fun q _ => rfl)
+  exact hinv q (by rw [hsh]; exact hq)
 
 /-- the order of arrival does not matter: two permutations of the same samples give the same gradients, counts and
     divergence -/
@@ -58,7 +87,17 @@ theorem arrival_order_irrelevant (sm : Bool) (g : GGrid ℝ) (l₁ l₂ : List (
     let f₂ := samples sm (g, setDiv g sm) l₂
     (∀ j, f₁.1.sum j = f₂.1.sum j) ∧ (∀ j, f₁.1.cnt j = f₂.1.cnt j) ∧
     ∀ q, PointOk g.shape q → f₁.2 q = f₂.2 q := by
-  sorry
+  have _ := hlen; have _ := hsum -- not needed: `zipWith` truncates both orders to the same length
+  intro f₁ f₂
+  have heq : f₁.1 = f₂.1 := Integ.L.samples_fst_perm sm l₁ l₂ hp _
+  refine ⟨fun j => by rw [heq], fun j => by rw [heq], ?_⟩
+  intro q hq
+  have e1 := incremental_eq_batch sm g l₁ hs hb q hq
+  have e2 := incremental_eq_batch sm g l₂ hs (fun bf hbf => hb bf (hp.mem_iff.2 hbf)) q hq
+  show f₁.2 q = f₂.2 q
+  rw [e1, e2]
+  show setDiv f₁.1 sm q = setDiv f₂.1 sm q
+  rw [heq]
 
 /-! ## one dimension: the surface is the running sum of bin averages times the width -/
 
@@ -67,7 +106,13 @@ theorem int1d_nonperiodic (g : GGrid ℝ) (sm csm : Bool) (n : Nat) (w : ℝ)
     (hnx : g.shape.nx = [(n : Int)]) (hper : g.shape.per = [false]) (hw : g.w = [w]) :
     (integrate1D g sm csm).length = n + 1 ∧
     ∀ i, i ≤ n → (integrate1D g sm csm).getD i 0 = ((List.range i).map (valOut g sm)).sum * w := by
-  sorry
+  rw [Integ.L.integrate1D_eq g sm csm n w false hnx hper hw]
+  simp only [Bool.false_eq_true, if_false, sub_zero]
+  refine ⟨by simp [Integ.L.prefixSums_length], ?_⟩
+  intro i hi
+  rw [Integ.L.prefixSums_getD _ _ _ (by simpa using hi), Integ.L.take_map_range _ _ _ hi, zero_add]
+  have := Integ.L.sum_map_sub_mul (valOut g sm) 0 w (List.range i)
+  simpa using this
 
 /-- periodic: one point per bin, starting at 0, consecutive points differ by (bin average − mean) × width, and
     continuing over the last bin returns to 0: the surface is periodic -/
@@ -77,12 +122,38 @@ theorem int1d_periodic (g : GGrid ℝ) (sm : Bool) (n : Nat) (w : ℝ) (hn : 0 <
     F.length = n ∧ F.getD 0 0 = 0 ∧
     (∀ i, i + 1 < n → F.getD (i + 1) 0 - F.getD i 0 = (valOut g sm i - average1D g sm n) * w) ∧
     F.getD (n - 1) 0 + (valOut g sm (n - 1) - average1D g sm n) * w = 0 := by
-  sorry
+  intro F
+  have hF : F = (prefixSums 0 ((List.range n).map fun i => (valOut g sm i - average1D g sm n) * w)).take n := by
+    show integrate1D g sm sm = _
+    rw [Integ.L.integrate1D_eq g sm sm n w true hnx hper hw]; simp
+  have hget : ∀ i, i < n → F.getD i 0 =
+      ((List.range i).map fun j => (valOut g sm j - average1D g sm n) * w).sum := by
+    intro i hi
+    rw [hF, List.getD_eq_getElem?_getD, List.getElem?_take_of_lt hi, ← List.getD_eq_getElem?_getD,
+      Integ.L.prefixSums_getD _ _ _ (by simp; omega), Integ.L.take_map_range _ _ _ (le_of_lt hi), zero_add]
+  refine ⟨?_, ?_, ?_, ?_⟩
+  · rw [hF]; simp [Integ.L.prefixSums_length]
+  · rw [hget 0 hn]; simp
+  · intro i hi
+    rw [hget (i + 1) hi, hget i (by omega), List.range_succ]
+    simp
+  · rw [hget (n - 1) (by omega)]
+    have h1 : ((List.range (n - 1)).map fun j => (valOut g sm j - average1D g sm n) * w).sum +
+        (valOut g sm (n - 1) - average1D g sm n) * w =
+        ((List.range n).map fun j => (valOut g sm j - average1D g sm n) * w).sum := by
+      have hr : List.range n = List.range (n - 1) ++ [n - 1] := by
+        rw [← List.range_succ]; congr 1; omega
+      rw [hr]; simp
+    rw [h1, Integ.L.sum_map_sub_mul, Integ.L.average1D_eq]
+    have hn' : (n : ℝ) ≠ 0 := by exact_mod_cast (by omega : n ≠ 0)
+    simp only [List.length_range]
+    field_simp
+    ring
 
 /-- the mean removed is the mean of the bin averages -/
 theorem average1D_eq (g : GGrid ℝ) (sm : Bool) (n : Nat) :
     average1D g sm n = ((List.range n).map (valOut g sm)).sum / (n : ℝ) := by
-  sorry
+  exact Integ.L.average1D_eq g sm n
 
 /-- a constant added to every bin average does not change the surface of a periodic variable -/
 theorem int1d_periodic_shift (g g' : GGrid ℝ) (sm : Bool) (n : Nat) (w c : ℝ) (hn : 0 < n)
@@ -90,25 +161,51 @@ theorem int1d_periodic_shift (g g' : GGrid ℝ) (sm : Bool) (n : Nat) (w c : ℝ
     (hs' : g'.shape = g.shape) (hw' : g'.w = g.w)
     (hv : ∀ i, i < n → valOut g' sm i = valOut g sm i + c) :
     integrate1D g' sm sm = integrate1D g sm sm := by
-  sorry
+  have hnx' : g'.shape.nx = [(n : Int)] := by rw [hs']; exact hnx
+  have hper' : g'.shape.per = [true] := by rw [hs']; exact hper
+  have hw'' : g'.w = [w] := by rw [hw']; exact hw
+  rw [Integ.L.integrate1D_eq g sm sm n w true hnx hper hw,
+    Integ.L.integrate1D_eq g' sm sm n w true hnx' hper' hw'']
+  have hn' : (n : ℝ) ≠ 0 := by exact_mod_cast (by omega : n ≠ 0)
+  have hsum : ∀ m, m ≤ n → ((List.range m).map (valOut g' sm)).sum =
+      ((List.range m).map (valOut g sm)).sum + (m : ℝ) * c := by
+    intro m
+    induction m with
+    | zero => intro _; simp
+    | succ m ih =>
+      intro hm
+      rw [List.range_succ, List.map_append, List.sum_append, List.map_append, List.sum_append,
+        ih (by omega)]
+      simp only [List.map_cons, List.map_nil, List.sum_cons, List.sum_nil, add_zero]
+      rw [hv m (by omega)]
+      push_cast; ring
+  have havg : average1D g' sm n = average1D g sm n + c := by
+    rw [average1D_eq, average1D_eq, hsum n (le_refl _)]
+    field_simp
+  simp only [if_true]
+  congr 2
+  apply List.map_congr_left
+  intro i hi
+  rw [hv i (List.mem_range.1 hi), havg]
+  ring
 
 /-! ## the Laplacian and the solver -/
 
 /-- the Laplacian annihilates constants: the surface is determined up to an additive constant only -/
 theorem lapAt_const (pnx : List Int) (per : List Bool) (w : List ℝ) (c : ℝ) (p : Idx) :
     lapAt pnx per w (fun _ => c) p = 0 := by
-  sorry
+  exact Integ.L.lapAt_const pnx per w c p
 
 /-- the Laplacian is linear in the field -/
 theorem lapAt_linear (pnx : List Int) (per : List Bool) (w : List ℝ) (A B : Idx → ℝ) (a : ℝ) (p : Idx) :
     lapAt pnx per w (fun q => A q + a * B q) p = lapAt pnx per w A p + a * lapAt pnx per w B p := by
-  sorry
+  exact Integ.L.lapAt_linear pnx per w A B a p
 
 /-- `atimes` is a linear operator on vectors of equal length, and its result has one entry per grid point -/
 theorem atimes_linear (pnx : List Int) (per : List Bool) (w : List ℝ) (a : ℝ) (x p : List ℝ) (h : x.length = p.length) :
     atimes pnx per w (axpy a p x) = axpy a (atimes pnx per w p) (atimes pnx per w x) ∧
     (atimes pnx per w x).length = (points pnx).length := by
-  sorry
+  exact ⟨Integ.L.atimes_axpy pnx per w a x p h, Integ.L.atimes_length pnx per w x⟩
 
 /-- what the solver needs from the operator -/
 structure LinOp (L : List ℝ → List ℝ) (n : Nat) : Prop where
@@ -121,7 +218,9 @@ theorem cg_residual_invariant (L : List ℝ → List ℝ) (n : Nat) (hL : LinOp 
     (hb : b.length = n) (hx : x0.length = n) :
     let res := cgSolve L b x0 tol itmax
     res.x.length = n ∧ res.r = List.zipWith (· - ·) b (L res.x) := by
-  sorry
+  intro res
+  obtain ⟨h1, _, _, h4, _⟩ := Integ.L.cgSolve_inv L n hL.len hL.lin b x0 tol itmax hb hx
+  exact ⟨h1, h4⟩
 
 /-- when the solver reports convergence, the discrete Laplacian of the result equals the right-hand side to the
     tolerance: `|b − L x| ≤ tol · |b|` -/
@@ -129,12 +228,20 @@ theorem cg_exit_bound (L : List ℝ → List ℝ) (n : Nat) (hL : LinOp L n) (b 
     (hb : b.length = n) (hx : x0.length = n) :
     let res := cgSolve L b x0 tol itmax
     res.stop = true → l2norm (List.zipWith (· - ·) b (L res.x)) ≤ tol * l2norm b := by
-  sorry
+  intro res hstop
+  obtain ⟨_, _, _, h4, h5⟩ := Integ.L.cgSolve_inv L n hL.len hL.lin b x0 tol itmax hb hx
+  have hpos := Integ.L.cgSolve_stop_pos L b x0 tol itmax hstop
+  have := h5 hstop
+  rw [div_le_iff₀ hpos] at this
+  rw [← h4]
+  exact this
 
 /-- the grid Laplacian is such an operator when the vectors have one entry per point -/
 theorem atimes_linop (pnx : List Int) (per : List Bool) (w : List ℝ) :
     LinOp (atimes pnx per w) (points pnx).length := by
-  sorry
+  refine ⟨fun x _ => Integ.L.atimes_length pnx per w x, ?_⟩
+  intro a x p hx hp
+  exact Integ.L.atimes_axpy pnx per w a x p (hx.trans hp.symm)
 
 /-! ## non-vacuity -/
 
